@@ -100,7 +100,7 @@ def walk_cases(ctx, count):
         ths = [rnd.choice([dec(100, 3000, 0), dec(100, 3000, 0), dec(10, 99, 0)]) for _ in range(5)]
         ths[n - 1] = F(100000)
         Ts = dec(-5, 50, 1)
-        Tmax = dec(50, 600, 0) if rnd.random() > 0.03 else rnd.choice([F(1000), F(1200), Ts])
+        Tmax = dec(50, 600, 0) if rnd.random() > 0.03 else rnd.choice([F(1200), F(1500), Ts])
         depth = dec(100, 15000, 0)
         if rnd.random() < 0.15 and n > 1:      # exactly on a layer interface / exactly at the capped depth
             depth = sum(ths[:rnd.randint(1, n - 1)])
